@@ -19,7 +19,7 @@ From Coq Require Import List NArith Bool.
 From NV Require Import Bgzf.Vpos Bgzf.VposProofs Bgzf.Gzi Bgzf.ReaderOps Bgzf.FlatRef Bgzf.ReaderOpsProofs
   Bgzf.ReaderTellProofs Bgzf.WriterTell Bgzf.GziBs Bgzf.GziBsProofs Bgzf.SeekBytes.
 From NV Require Bgzf.Frame Bgzf.Writer Bgzf.WriterTellProofs Bgzf.WriterTellRows Bgzf.Reader Bgzf.Inflate
-  Bgzf.SeekBytesProofs Bgzf.SeekBytesBoundary Sinks.Sink Bgzf.WriterTellSink Bgzf.WriterTellSinkProofs Bgzf.SeekBytesHistProofs Bgzf.SeekBytesShift Bgzf.SeekBytesReloc.
+  Bgzf.SeekBytesProofs Bgzf.SeekBytesBoundary Sinks.Sink Bgzf.WriterTellSink Bgzf.WriterTellSinkProofs Bgzf.SeekBytesHistProofs Bgzf.SeekBytesShift Bgzf.SeekBytesReloc Bgzf.SeekBytesShiftOps.
 Import ListNotations.
 Open Scope N_scope.
 
@@ -568,3 +568,48 @@ Theorem c02_hreloc_run_relocated : forall fb mid v ns x t rowsB x' t' rowsC tm r
   x = Ok v -> x' = Ok (pack 0 (vuncomp v)) /\ t = tm /\ rowsB = rowsM.
 Proof. exact SeekBytesReloc.hreloc_run_reloc. Qed.
 Print Assumptions c02_hreloc_run_relocated.
+
+(* ---- wave 10c: the shift theorem for continuations with FURTHER SEEKS ------------------------
+   After a successful seek to a position v that a reader told after an error-free history from the
+   start, ANY history of read and seek calls (seeks anywhere, failing or not, reads after errors)
+   gives the same rows (result, position told) as the same history carried on by the reader that
+   told v — provided v is inside a block, or the history does not START with a seek that fails.
+   (When v is a block end the seeking reader has the next block loaded, the other one the exhausted
+   previous block; a failing seek leaves the block it found, so only then can the two differ.) *)
+Theorem c02_seek_to_told_position_shift_ops : forall fb ops v s s' ops2,
+  let s0 := mkBst fb 0 (mkBlk 0 0 0 0) in
+  SeekBytesShift.all_ok (hops_b Inflate.inflate fb s0 ops) ->
+  blk_vpos (s_blk (state_b Inflate.inflate fb s0 ops)) = Ok v ->
+  seek_b Inflate.inflate fb s v = (s', Ok v) ->
+  0 < vuncomp v \/
+  SeekBytesShiftOps.first_seek_ok Inflate.inflate fb (state_b Inflate.inflate fb s0 ops) ops2 ->
+  hops_b Inflate.inflate fb s' ops2 = hops_b Inflate.inflate fb (state_b Inflate.inflate fb s0 ops) ops2.
+Proof. exact (SeekBytesShiftOps.seek_then_ops_as_from_start Inflate.inflate). Qed.
+Print Assumptions c02_seek_to_told_position_shift_ops.
+
+(* with no premise on the continuation: its first call still returns the same in both readers
+   (a failing first seek fails with the same error) *)
+Theorem c02_seek_to_told_position_first_call : forall fb ops v s s' o,
+  let s0 := mkBst fb 0 (mkBlk 0 0 0 0) in
+  SeekBytesShift.all_ok (hops_b Inflate.inflate fb s0 ops) ->
+  blk_vpos (s_blk (state_b Inflate.inflate fb s0 ops)) = Ok v ->
+  seek_b Inflate.inflate fb s v = (s', Ok v) ->
+  snd (step_b Inflate.inflate fb s' o) = snd (step_b Inflate.inflate fb (state_b Inflate.inflate fb s0 ops) o).
+Proof. exact (SeekBytesShiftOps.seek_then_first_call_same_result Inflate.inflate). Qed.
+Print Assumptions c02_seek_to_told_position_first_call.
+
+(* readers related by the bisimulation of the shift proof (same bytes ahead, same position, blocks
+   equal or both exhausted with the same end) agree on every history of reads and seeks, errors
+   and failed seeks included *)
+Theorem c02_bisimilar_readers_same_history : forall fb ops s t,
+  SeekBytesShift.R s t -> hops_b Inflate.inflate fb s ops = hops_b Inflate.inflate fb t ops.
+Proof. exact (SeekBytesShiftOps.R_hops Inflate.inflate). Qed.
+Print Assumptions c02_bisimilar_readers_same_history.
+
+(* the form the correspondence check runs (kind hshifts) *)
+Theorem c02_hshiftops_run_shift : forall fb ops1 mid ops2 h1 v rowsA x t rowsB,
+  SeekBytesShiftOps.hshiftops_run fb ops1 mid ops2 = (h1, Ok v, rowsA, Some (x, t, rowsB)) ->
+  SeekBytesShift.all_ok h1 -> x = Ok v ->
+  0 < vuncomp v \/ SeekBytesShiftOps.first_row_ok ops2 rowsA -> rowsB = rowsA.
+Proof. exact SeekBytesShiftOps.hshiftops_run_shift. Qed.
+Print Assumptions c02_hshiftops_run_shift.
